@@ -370,6 +370,9 @@ class Interp:
             return not self.w.choose(("falsy-node-id", v.role))
         if isinstance(v, Opaque):
             return self.w.choose(("truthy-opaque", v.tag))
+        r = self.w.truth_of(self, v)
+        if r is not None:
+            return r
         return truth(v, node)
 
     def cmp_int(self, a, b, op, node=None):
@@ -709,7 +712,17 @@ class Interp:
                 self.w.on_yield(self, v, e)
             return NONE
         if isinstance(e, ast.JoinedStr):
-            return Opaque("fstring")
+            parts = []
+            for v in e.values:
+                if isinstance(v, ast.Constant):
+                    parts.append(Const(v.value))
+                elif isinstance(v, ast.FormattedValue):
+                    try:
+                        parts.append(self.eval(v.value, env))
+                    except Unsupported:
+                        return Opaque("fstring")
+            r = self.w.eval_fstring(self, parts, e)
+            return r if r is not None else Opaque("fstring")
         if isinstance(e, (ast.ListComp, ast.GeneratorExp, ast.SetComp, ast.DictComp)):
             r = self.comprehension(e, env)
             if r is not None:
@@ -847,6 +860,10 @@ class Interp:
         if isinstance(obj, DictObj):
             k = self.dict_key(key, node)
             if k not in obj.entries:
+                fac = getattr(obj, "default_factory", None)
+                if fac is not None:
+                    obj.entries[k] = fac()
+                    return obj.entries[k]
                 raise AbstractRaise("KeyError", node, detail="missing key %r" % (k,))
             return obj.entries[k]
         return self.w.load_subscript(self, obj, key, node)
@@ -1125,6 +1142,9 @@ class Interp:
         raise Unsupported(node, "builtin %s%r" % (name, tuple(args)))
 
     def type_of(self, v, node):
+        t = self.w.type_of(self, v)
+        if t is not None:
+            return t
         if isinstance(v, (Int,)):
             return TypeV("int")
         if isinstance(v, Const):
